@@ -88,7 +88,8 @@ class Analyzer:
                 return f".{name}()"
             if dotted in FS_UNORDERED_FUNCS:
                 return dotted
-            if dotted in ("uuid.uuid4", "uuid.uuid1", "uuid4", "id", "random.random", "time.time", "datetime.now", "datetime.datetime.now", "os.getpid"):
+            if dotted in ("uuid.uuid4", "uuid.uuid1", "uuid4", "id", "hash", "random.random", "random.randint", "random.choice", "random.randrange", "time.time", "time.monotonic", "datetime.now", "datetime.datetime.now", "os.getpid", "os.urandom"):
+                # hash(): salted per process for str / bytes (and anything built from them)
                 return f"opaque {dotted}()"
         if isinstance(e, ast.BinOp) and isinstance(e.op, SET_OPS):
             for side in (e.left, e.right):
